@@ -47,6 +47,10 @@ pub fn build(c: &Cost) -> Vec<ROp> {
         }
         Cost::Doubling { vector, k, consumer, arg } => {
             let mut ops = vec![];
+            // consumers 13-15 never materialise the doubled value, so it can be far larger (2^40..2^58 elements held
+            // in shared nodes): what they probe is work that is proportional to the *logical* size of a value
+            let deep = matches!(consumer % 16, 13 | 14 | 15);
+            let k = &(if deep { 40 + (*arg % 19) as u8 } else { *k });
             if *vector {
                 ops.push(ROp::PushIC(be(7)));
                 ops.push(ROp::VEmpty);
@@ -109,6 +113,43 @@ pub fn build(c: &Cost) -> Vec<ROp> {
                 (12, _) => {
                     ops.push(ROp::StoreImm(3));
                     ops.push(ROp::LoadImm(3));
+                }
+                (13, _) => {
+                    // the doubled value H sits in slot 0 of a vector and an equal H is written over it: [H] 0 H vset
+                    ops.push(ROp::StoreImm(200));
+                    ops.push(ROp::LoadImm(200));
+                    ops.push(ROp::PushIC(be(0)));
+                    ops.push(ROp::LoadImm(200));
+                    ops.push(ROp::VEmpty);
+                    ops.push(ROp::VPush);
+                    ops.push(ROp::VSet);
+                }
+                (14, _) => {
+                    // [x, H] with H written over slot 1, then the result stored and loaded again
+                    ops.push(ROp::StoreImm(200));
+                    ops.push(ROp::LoadImm(200));
+                    ops.push(ROp::PushIC(be(1)));
+                    ops.push(ROp::LoadImm(200));
+                    ops.push(ROp::PushIC(be(*arg as u128)));
+                    ops.push(ROp::VEmpty);
+                    ops.push(ROp::VPush);
+                    ops.push(ROp::VPush);
+                    ops.push(ROp::VSet);
+                    ops.push(ROp::StoreImm(201));
+                    ops.push(ROp::LoadImm(201));
+                }
+                (15, _) => {
+                    // two equal huge values next to each other in a vector, one of them fetched back and measured
+                    ops.push(ROp::Dup);
+                    ops.push(ROp::VEmpty);
+                    ops.push(ROp::VPush);
+                    ops.push(ROp::VPush);
+                    ops.push(ROp::Dup);
+                    ops.push(ROp::StoreImm(202));
+                    ops.push(ROp::PushIC(be(1)));
+                    ops.push(ROp::LoadImm(202));
+                    ops.push(ROp::VRef);
+                    ops.push(ROp::TypeQ);
                 }
                 (_, true) => match consumer % 6 {
                     0 => ops.push(ROp::VLength),
@@ -257,6 +298,37 @@ pub fn check_cost(ops: &[ROp], st: &mut Stats) -> Check {
         st.exclude("weight-above-step-cap");
         return Ok(());
     }
+    // (4) time: the covenant is weighed and executed once in a worker process whose CPU time is read from /proc; a run
+    // that uses more than the budget is cut off (the worker is killed) and reported. Done first, so that the in-process
+    // run below cannot hang the check.
+    let timed = timed_run(&bytes, w);
+    if let (Timed::Done(t), true) = (&timed, std::env::var("MV_C11_SLOW").is_ok()) {
+        if *t >= 100 {
+            eprintln!("[slow {} ticks, weight {}] {}", t, w, refvm::show_ops(ops).chars().take(300).collect::<String>());
+        }
+    }
+    match timed {
+        Timed::Done(ticks) => st.class(match ticks {
+            0..=9 => "cpu-time-under-0.1s",
+            10..=99 => "cpu-time-0.1s-to-1s",
+            100..=299 => "cpu-time-1s-to-3s",
+            300..=999 => "cpu-time-3s-to-10s",
+            _ => "cpu-time-above-10s",
+        }),
+        Timed::Exceeded(ticks, budget) => {
+            viol!(
+                "cpu-time-exceeds-bound",
+                "[{}] ({} bytes, weight {}) was still being weighed / executed after {:.1} s of CPU time (budget {:.0} s = 5 s + 10 us per unit of weight; runs above weight {} are not made)",
+                refvm::show_ops(ops).chars().take(400).collect::<String>(),
+                bytes.len(),
+                w,
+                ticks as f64 / 100.0,
+                budget as f64 / 100.0,
+                STEP_CAP
+            );
+        }
+        Timed::Unavailable => st.exclude("timing-worker-unavailable"),
+    }
     let heap: HashMap<u16, melvm::Value> = HashMap::new();
     let (res, peak_x, _) = crate::alloc::measure(|| {
         catch(|| {
@@ -304,6 +376,160 @@ pub fn check_cost(ops: &[ROp], st: &mut Stats) -> Check {
     Ok(())
 }
 
+pub enum Timed {
+    /// finished; CPU time used, in clock ticks (1/100 s)
+    Done(u64),
+    /// cut off after this many ticks; the budget that applied
+    Exceeded(u64, u64),
+    /// the worker could not be started or died (counted, never a verdict)
+    Unavailable,
+}
+
+/// CPU-time budget for weighing and executing one covenant, in ticks of 1/100 s: 5 s + 10 microseconds per unit of
+/// weight (35 s at the largest weight that is run). Measured on the unchanged tree the slowest generated covenants need
+/// about 0.5 microseconds per unit of weight (1.1 s at weight 2x10^6; see the cpu-time-* classes in the evidence).
+pub const CPU_BUDGET_TICKS: u64 = 500;
+/// after a first overrun in a shard (i.e. while proptest shrinks it) the budget is lowered so that shrinking stays affordable
+pub const CPU_BUDGET_TICKS_SHRINK: u64 = 600;
+
+struct Worker {
+    child: std::process::Child,
+    stdin: std::process::ChildStdin,
+    rx: std::sync::mpsc::Receiver<String>,
+}
+
+impl Drop for Worker {
+    fn drop(&mut self) {
+        let _ = self.child.kill();
+        let _ = self.child.wait();
+    }
+}
+
+thread_local! {
+    static WORKER: std::cell::RefCell<Option<Worker>> = const { std::cell::RefCell::new(None) };
+    static OVERRUN_SEEN: std::cell::Cell<bool> = const { std::cell::Cell::new(false) };
+}
+
+fn spawn_worker() -> Option<Worker> {
+    use std::io::BufRead;
+    let exe = std::env::current_exe().ok()?;
+    let mut child = std::process::Command::new(exe)
+        .arg("vm-worker").arg("C11")
+        .stdin(std::process::Stdio::piped())
+        .stdout(std::process::Stdio::piped())
+        .stderr(std::process::Stdio::null())
+        .spawn()
+        .ok()?;
+    let stdin = child.stdin.take()?;
+    let stdout = child.stdout.take()?;
+    let (tx, rx) = std::sync::mpsc::channel();
+    std::thread::spawn(move || {
+        for line in std::io::BufReader::new(stdout).lines() {
+            match line {
+                Ok(l) => {
+                    if tx.send(l).is_err() {
+                        break;
+                    }
+                }
+                Err(_) => break,
+            }
+        }
+    });
+    Some(Worker { child, stdin, rx })
+}
+
+/// utime + stime of a process, in clock ticks, from /proc/<pid>/stat
+fn cpu_ticks(pid: u32) -> Option<u64> {
+    let s = std::fs::read_to_string(format!("/proc/{}/stat", pid)).ok()?;
+    let rest = &s[s.rfind(')')? + 1..];
+    let f: Vec<&str> = rest.split_whitespace().collect();
+    // after the command name: state is field 3 of the file, so utime (14) and stime (15) are at indices 11 and 12 here
+    Some(f.get(11)?.parse::<u64>().ok()? + f.get(12)?.parse::<u64>().ok()?)
+}
+
+/// Weighs and executes the covenant once in this shard's worker process and reports the CPU time it took.
+pub fn timed_run(bytes: &[u8], weight: u128) -> Timed {
+    use std::io::Write;
+    WORKER.with(|slot| {
+        let mut slot = slot.borrow_mut();
+        if slot.is_none() {
+            *slot = spawn_worker();
+        }
+        let full = CPU_BUDGET_TICKS + (weight.min(STEP_CAP) / 1000) as u64;
+        let budget = if OVERRUN_SEEN.with(|c| c.get()) { full.min(CPU_BUDGET_TICKS_SHRINK) } else { full };
+        let outcome = {
+            let w = match slot.as_mut() {
+                Some(w) => w,
+                None => return Timed::Unavailable,
+            };
+            let pid = w.child.id();
+            let before = match cpu_ticks(pid) {
+                Some(t) => t,
+                None => return Timed::Unavailable,
+            };
+            if writeln!(w.stdin, "{}", hex::encode(bytes)).and_then(|_| w.stdin.flush()).is_err() {
+                None
+            } else {
+                let mut wait_ms = 1u64;
+                loop {
+                    match w.rx.recv_timeout(std::time::Duration::from_millis(wait_ms)) {
+                        Ok(_) => break Some(Timed::Done(cpu_ticks(pid).unwrap_or(before).saturating_sub(before))),
+                        Err(std::sync::mpsc::RecvTimeoutError::Timeout) => {
+                            wait_ms = (wait_ms * 2).min(250);
+                            match cpu_ticks(pid) {
+                                Some(now) if now.saturating_sub(before) > budget => break Some(Timed::Exceeded(now.saturating_sub(before), budget)),
+                                Some(_) => {}
+                                None => break None,
+                            }
+                        }
+                        Err(std::sync::mpsc::RecvTimeoutError::Disconnected) => break None,
+                    }
+                }
+            }
+        };
+        match outcome {
+            Some(Timed::Done(t)) => Timed::Done(t),
+            Some(other) => {
+                // cut off: the worker is killed and replaced
+                OVERRUN_SEEN.with(|c| c.set(true));
+                *slot = None;
+                other
+            }
+            None => {
+                *slot = None;
+                Timed::Unavailable
+            }
+        }
+    })
+}
+
+/// child side of `timed_run`: one covenant (hex) per line on stdin; weighs it as a validator does, executes it on an
+/// empty heap, answers with one line
+pub fn vm_worker() {
+    use std::io::{BufRead, Write};
+    std::panic::set_hook(Box::new(|_| {}));
+    let stdin = std::io::stdin();
+    let mut out = std::io::stdout();
+    for line in stdin.lock().lines() {
+        let line = match line {
+            Ok(l) => l,
+            Err(_) => break,
+        };
+        let b = hex::decode(line.trim()).unwrap_or_default();
+        let r = std::panic::catch_unwind(|| {
+            let _ = melvm::covenant_weight_from_bytes(&b);
+            if let Ok(c) = melvm::Covenant::from_bytes(&b) {
+                let _ = c.weight();
+                let v = c.debug_execute(&[]);
+                drop(v);
+            }
+        });
+        if writeln!(out, "{}", if r.is_ok() { "ok" } else { "panic" }).and_then(|_| out.flush()).is_err() {
+            break;
+        }
+    }
+}
+
 pub fn arb_cost(thorough: bool) -> impl Strategy<Value = Cost> {
     let kmax: u8 = if thorough { 26 } else { 22 };
     let iters = prop_oneof![Just(0u16), Just(1), Just(2), Just(3), Just(65535), 0u16..300];
@@ -337,7 +563,7 @@ pub fn run(ctx: &Ctx) -> (Outcome, String, Option<bool>) {
             r
         },
     );
-    let rule = format!("Generated: nested loops up to syntactic depth {} with iteration counts 0/1/2/3/65535/random and body lengths that overrun the program or the enclosing loop; doubling prefixes (dup;bappend / dup;vappend, k up to {}) followed by every consuming opcode; type-aware random programs; jump-heavy code; doubling inside counted loops of 1 to 65535 iterations (lengths pass 2^64 after ~60). Oracle (deterministic counters only): (1) the real interpreter, stepped one instruction at a time through the cfg(melstf_verif) re-export, never executes more instructions than Covenant::weight() (runs with weight > {} are excluded and counted); (2) weight() equals the specification formula and needs <= 8n^2+64 weigh steps (thread-local counter hook); (3) peak heap bytes of weight()+execution <= 4 MiB + 16 KiB*(covenant bytes + weight) (one pushed value costs up to ~4.2 KiB in the persistent-vector representation, measured), measured by a counting allocator. Non-trivial = program contains a loop or a doubling prefix; distinct by bytecode.", NEST_CAP, if thorough {26} else {22}, STEP_CAP);
+    let rule = format!("Generated: nested loops up to syntactic depth {} with iteration counts 0/1/2/3/65535/random and body lengths that overrun the program or the enclosing loop; doubling prefixes (dup;bappend / dup;vappend, k up to {}) followed by every consuming opcode; type-aware random programs; jump-heavy code; doubling inside counted loops of 1 to 65535 iterations (lengths pass 2^64 after ~60). Doubling prefixes of 40-58 steps (2^40..2^58 logical elements in shared nodes) feed consumers that never materialise the value: an equal huge value written over a vector slot that holds it, nested vectors of equal huge values. Oracle: (4) every covenant is first weighed and executed once in a worker process whose CPU time (utime+stime from /proc) must stay below 5 s + 10 microseconds per unit of weight (measured on the unchanged tree: at most ~0.5 microseconds per unit of weight, 1.1 s at weight 2x10^6; see the cpu-time-* classes); a run over the budget is cut off by killing the worker (6 s while a failure is being shrunk); deterministic counters: (1) the real interpreter, stepped one instruction at a time through the cfg(melstf_verif) re-export, never executes more instructions than Covenant::weight() (runs with weight > {} are excluded and counted); (2) weight() equals the specification formula and needs <= 8n^2+64 weigh steps (thread-local counter hook); (3) peak heap bytes of weight()+execution <= 4 MiB + 16 KiB*(covenant bytes + weight) (one pushed value costs up to ~4.2 KiB in the persistent-vector representation, measured), measured by a counting allocator. Non-trivial = program contains a loop or a doubling prefix; distinct by bytecode.", NEST_CAP, if thorough {26} else {22}, STEP_CAP);
     (out, rule, None)
 }
 
